@@ -181,6 +181,8 @@ def stateless (w : List String) : Option String :=
       | _ => "failure"
     some s!"class={cls} zone={boolStr (resolveRecordsZone ⟨false, false, false, .none⟩ false false res)}"
   | "fail" :: "l3shed" :: _ => some "unmodelled"
+  | "fail" :: "l3trunc" :: _ => some "unmodelled"
+  | "fail" :: "l3deadline" :: _ => some "patient=answer retained=-"
   | ["fail", "l3id", _dnssec, cd, scenario, qtype] => do
     -- whatever the dnssec switch and the outcome path, a failure is filed under the client's own question
     let cd ← parseBool cd; let qtype ← qtype.toNat?
